@@ -647,6 +647,80 @@ pub fn injections(b: &Base) -> Vec<Scenario> {
 }
 
 // ------------------------------------------------------------------------------------------
+// F2d: the OWNER of the key record as a dimension of its own. The answer to the `<signer> DNSKEY`
+// lookup carries the genuine DNSKEY RRset plus an EXTRA DNSKEY RRset under another owner whose
+// records are themselves Secure (self-signed, key = trust anchor); the RRSIG over the answer is
+// made with the key of that extra record. owner x key material x RRSIG signer field x key tag.
+
+pub fn key_owners(b: &Base) -> Vec<Scenario> {
+    use hickory_proto::dnssec::PublicKey;
+    let now = T0;
+    let w = wide(now);
+    let h = b.honest(w, w);
+    let zone = b.zone.clone();
+    let genuine = b.keys[b.ans_signer].clone();
+    let other = keys::ED[9];
+    let mut owners: Vec<(&str, Name)> = vec![
+        ("the signer zone itself (genuine owner)", zone.clone()),
+        ("a strict descendant", child(&zone, "c")),
+        ("a deeper descendant", child(&child(&zone, "c"), "d")),
+        ("a sibling / unrelated name", vsec::n("y.")),
+    ];
+    if !zone.is_root() {
+        owners.push(("a strict ancestor", zone.base_name()));
+        owners.push(("the same labels in other case", Name::from_ascii(zone.to_ascii().to_uppercase()).unwrap()));
+    }
+    let mut out = vec![];
+    for (oname, owner) in &owners {
+        for (kname, mat) in [("the genuine zone key", genuine.mat), ("another (trusted) key", other)] {
+            // the key record as presented: material `mat` under owner `owner`
+            let presented = ZoneKey::new(mat, owner, genuine.flags);
+            if *owner == zone && mat == genuine.mat {
+                continue; // that is the honest case
+            }
+            let mut signers: Vec<(&str, Name)> = vec![("the zone", zone.clone()), ("the key record's owner", owner.clone())];
+            if !zone.is_root() {
+                signers.push(("an ancestor of the zone", zone.base_name()));
+            }
+            signers.dedup_by(|a, c| a.1 == c.1);
+            for (sname, signer) in &signers {
+                for tag_ok in [true, false] {
+                    let mut s = h.clone();
+                    // the extra DNSKEY RRset, self-signed under its own owner
+                    let extra = sign::dnskey_record(owner, TTL, presented.dnskey());
+                    let extra_sig = make_sig(&[extra.clone()], &presented, &SigSpec::window(w.0, w.1));
+                    if *owner != zone {
+                        s.dnskeys.push(extra);
+                        s.dnskey_sigs.push(extra_sig);
+                    } else {
+                        // same owner: the key joins the zone's own RRset, which the zone key re-signs
+                        s.dnskeys.push(extra);
+                        b.resign_dnskeys(&mut s, w);
+                    }
+                    let tag = if tag_ok { presented.tag() } else { presented.tag().wrapping_add(1) };
+                    s.ans_sigs = vec![make_sig(&b.records, &presented, &SigSpec { signer: Some(signer.clone()), key_tag: Some(tag), ..b.ans_spec(w) })];
+                    let mut sc = b.single(
+                        "keyowner",
+                        format!("key record owned by {oname} ({owner}) holding {kname}; RRSIG made with it, signer field = {sname} ({signer}), key tag {}", if tag_ok { "matching" } else { "off by one" }),
+                        now,
+                        &s,
+                    );
+                    // the mixed DNSKEY answer is what the upstream serves for whatever signer the
+                    // RRSIG names; the other key is a trust anchor so that its record is Secure
+                    let mixed = sc.worlds[0][&key_of(&zone, RecordType::DNSKEY)].clone();
+                    for n in [signer, owner] {
+                        sc.worlds[0].entry(key_of(n, RecordType::DNSKEY)).or_insert_with(|| mixed.clone());
+                    }
+                    sc.anchors.push((u8::from(other.alg), other.public().public_bytes().to_vec()));
+                    out.push(sc);
+                }
+            }
+        }
+    }
+    out
+}
+
+// ------------------------------------------------------------------------------------------
 // F2c: SEVERAL RRSIGs over the one RRset, every order
 
 fn flip_sig(sig: &Record) -> Record {
